@@ -262,6 +262,27 @@ def gen_opt(tier, R, kind='opt'):
         for w in wraps:
             for leaf in (L(num(5.0)), L(b(True)), X):
                 out.append(f"({kind} _ {env([('x', num(2.0))], OPT_FNS_S)} {nest(d, w, leaf)})")
+    # the same function called more than once in one tree with arguments that are `=` to each other without being identical (1 / '1' / true, 0 / -0 / false, [1] / [true]):
+    # a result remembered per (name, arguments) under the language's loose equality would be reused for a different call
+    loose = [(num(1.0), s("1")), (num(1.0), b(True)), (s("1"), b(True)), (num(0.0), num(-0.0)), (num(0.0), b(False)), (num(0.0), s("0")), (s("1.0"), num(1.0)), (s("+1"), num(1.0)),
+             (f"(a {num(1.0)})", "(a (b 1))"), (f"(a {s('1')})", f"(a {num(1.0)})"), (num(2.0), num(2.0))]
+    for a1, a2 in loose:
+        for fname in ('echo', 'p1', 'opt2', 'echo2', 'imp'):
+            for pair in ((a1, a2), (a2, a1)):
+                c1 = f"(call {s(fname)} {L(pair[0])})" if fname != 'echo2' else f"(call {s(fname)} {L(pair[0])} {L(num(9.0))})"
+                c2 = f"(call {s(fname)} {L(pair[1])})" if fname != 'echo2' else f"(call {s(fname)} {L(pair[1])} {L(num(9.0))})"
+                for e in (f"(arr {c1} {c2})", f"(bin plus (arr {c1}) (arr {c2}))", f"(arr {c1} {X} {c2})", f"(call {s('echo')} {c1} {c2})", f"(ter ternaryCondition {X} {c1} {c2})", f"(arr {c1} {c1} {c2})"):
+                    for xv in (b(True), b(False)):
+                        out.append(f"({kind} _ {env([('x', xv)], OPT_FNS_S)} {e})")
+    # a variable that is not bound but whose name is the name of a registered function (of any arity kind), and the other way round: variables and functions are separate namespaces,
+    # a function of that name makes neither the variable defined nor the validator lenient
+    for fname, _, _, _ in OPT_FNS + [("nofn", 0, 0, 0)]:
+        for up in (fname, fname.upper()):
+            V = f"(var {s(up)})"
+            for e in (V, f"(bin plus {V} {L(num(1.0))})", f"(arr {V})", f"(call {s('echo')} {V})", f"(bin equal {V} {L(num(0.0))})", f"(bin and {V} {L(b(True))})", f"(un not {V})",
+                      f"(ter ternaryCondition {L(b(True))} {V} {L(num(0.0))})", f"(call {s(fname)} {V})"):
+                out.append(f"({kind} _ {env([('x', num(2.0))], OPT_FNS_S)} {e})")
+                out.append(f"({kind} _ {env([('x', num(2.0)), (fname, num(5.0))], OPT_FNS_S)} {e})")
     # wide calls: a pure variadic function with 99, 100, 101, 150 and 300 literal arguments must fold like a narrow one
     for cnt in (99, 100, 101, 150, 300):
         args = " ".join(L(num(float(j % 9))) for j in range(cnt))
